@@ -112,12 +112,66 @@ def _entry_points(repo: Repo) -> tuple[list[FuncInfo], bool, str]:
     classes = _matcher_classes(repo)
     ev = view.param_names[1] if len(view.param_names) > 1 else ""
 
+    def is_ctor(f: FuncInfo) -> bool:
+        return f.cls in classes and f.name in ("__init__", "__post_init__")
+
+    stale: list[str] = []  # why a matcher handed out by a factory is not an object created for this call
+
+    def factory(f: FuncInfo, depth: int = 0) -> bool | None:
+        """A callable stored where the rule expects the matcher class (`Rule(rule_matcher_class=<bound method / function>)`):
+        None if it does not produce matchers; True if every object it returns is created by that very call; False (with the
+        reason in `stale`) if it may hand out an object that it keeps."""
+        if isinstance(f.node, ast.Lambda) or depth > 2:
+            return None
+        ann = f.node.returns
+        typed = ann is not None and any(m[0] == "cls" and repo.classes.get(m[1]) in classes for m in _members(T.ann(f.module, ann)))
+        ffn = Fn(repo, f)
+        rets = [r for r in own_nodes(f.node) if isinstance(r, ast.Return) and r.value is not None]
+        if not rets:
+            return None
+
+        def made_here(v: ast.AST | None, seen: int = 0) -> bool | None:
+            if isinstance(v, ast.Call):
+                cs, _how = ffn.callees(v)
+                if cs and all(is_ctor(g) for g in cs):
+                    return True
+                inner = [factory(g, depth + 1) if not is_ctor(g) else True for g in cs]
+                if cs and all(x is not None for x in inner):
+                    return all(inner)
+                return None
+            if isinstance(v, ast.Name) and seen < 3:
+                defs = ffn.reaching(v.id, v)
+                got = [made_here(d.value, seen + 1) if d.kind == "assign" else None for d in defs]
+                if defs and all(x is not None for x in got):
+                    return all(got)
+                return None
+            if isinstance(v, (ast.Attribute, ast.Subscript)) and any(m[0] == "cls" and repo.classes.get(m[1]) in classes for m in _members(ffn.type_of(v))):
+                return False  # an object kept in a field / container
+            return None
+
+        kinds = [made_here(r.value) for r in rets]
+        if any(k is None for k in kinds):
+            if not typed:
+                return None
+            kinds = [bool(k) for k in kinds]
+        if not all(kinds):
+            r = rets[[bool(k) for k in kinds].index(False)]
+            stale.append(f"the matcher may be handed out by {f.qualname} (`{header(r)[:60]}`), which does not create it for this call")
+            return False
+        return True
+
     def creates_matcher(v: ast.AST | None, deep: bool = True) -> bool:
+        """Is `v` a call that yields a matcher (constructor of a matcher class, or a factory stored in its place)?  Whether the
+        object is new is recorded in `stale`."""
         if not isinstance(v, ast.Call):
             return False
         cs, how = fn.callees(v)
-        if bool(cs) and all(f.cls in classes and f.name in ("__init__", "__post_init__") for f in cs):
+        if bool(cs) and all(is_ctor(f) for f in cs):
             return True
+        if cs and any(is_ctor(f) for f in cs):
+            kinds = [True if is_ctor(f) else factory(f) for f in cs]
+            if all(k is not None for k in kinds):
+                return True
         if deep and parent(v) is not None:  # a private factory whose body only builds the matcher
             x = fn.expand(v)
             return x is not v and creates_matcher(x, False)
@@ -158,6 +212,8 @@ def _entry_points(repo: Repo) -> tuple[list[FuncInfo], bool, str]:
                 fresh, why = False, f"the matcher `{recv.id}` is `{norm(d.value) if d.value is not None else d.kind}`, not an object created for this call"
     if not found:
         raise AnalysisError("Rule.assert_applies: the call that runs the rule matcher on the evaluable was not found")
+    if fresh and stale:
+        fresh, why = False, stale[0]
     return entries, fresh, why
 
 
